@@ -3,7 +3,7 @@
    prod, sumbool map to OCaml's; N, Z, positive, nat stay inductive. *)
 From Coq Require Extraction.
 From Coq Require ExtrOcamlBasic.
-From TP Require Import Base Elem Term Screen VT Parser Markup Order Oracle.
+From TP Require Import Base Elem Term Screen VT Parser Markup Order Oracle Proto.
 
 Extraction Language OCaml.
 Extraction "extracted/model.ml"
@@ -21,4 +21,5 @@ Extraction "extracted/model.ml"
   encode ete to_string of_bytes parse_element
   vt_bytes vt_resize vt0_clean vt0_junk adopt_keep adopt_corner adopt_home
   oracle_run wf_op_b wf_elem wf_title displayable
-  digit10 digit16 mstep.
+  digit10 digit16 mstep
+  enc tok wf_item adjacency_ok enc_all.
